@@ -484,6 +484,7 @@ pub struct C19Policy {
     pub probes: Probes,
     step_now: u32,
     fault_free: bool,
+    dir_print: u64,
 }
 
 /// Error texts carry the sandbox path and random temporary names; messages must not.
@@ -578,6 +579,7 @@ impl C19Policy {
             probes: Probes::default(),
             step_now: 0,
             fault_free,
+            dir_print: 0,
         }
     }
 
@@ -666,6 +668,53 @@ impl Policy for C19Policy {
     fn check(&mut self, ctx: &StepCtx) -> Result<(), Violation> {
         self.step_now = ctx.step;
         self.absorb_events(ctx.events);
+        // loss-of-resolution probe: the directory may only change through a mediated call
+        // that can change it.  A change after any other kind of step means the code under
+        // test reached the disk by a route the seam does not mediate (child process, raw
+        // system call); the invariants below still see the resulting states, but not the
+        // ones in between.  Counted, never judged.
+        {
+            use std::os::unix::fs::MetadataExt;
+            let mut h = FNV_INIT;
+            // cheap fingerprint: the directory's own mtime (changes on create / unlink /
+            // rename) and the output's identity, size and mtime
+            for p in [DIR, OUT] {
+                if let Ok(m) = fs::symlink_metadata(p) {
+                    fnv1a(&mut h, &m.len().to_le_bytes());
+                    fnv1a(&mut h, &m.ino().to_le_bytes());
+                    fnv1a(&mut h, &m.mtime().to_le_bytes());
+                    fnv1a(&mut h, &m.mtime_nsec().to_le_bytes());
+                } else {
+                    fnv1a(&mut h, b"absent");
+                }
+            }
+            if let Ok(m) = fs::metadata(OUT) {
+                fnv1a(&mut h, &m.len().to_le_bytes());
+                fnv1a(&mut h, &m.ino().to_le_bytes());
+                fnv1a(&mut h, &m.mtime_nsec().to_le_bytes());
+            }
+            if self.dir_print != 0 && h != self.dir_print {
+                let mutating = ctx.events.last().map(|e| {
+                    matches!(
+                        e.kind,
+                        OpKind::OpenWrite
+                            | OpKind::Write
+                            | OpKind::Rename
+                            | OpKind::Link
+                            | OpKind::Unlink
+                            | OpKind::Truncate
+                            | OpKind::Mkdir
+                            | OpKind::Rmdir
+                            | OpKind::Symlink
+                            | OpKind::Chmod
+                    )
+                });
+                if mutating != Some(true) {
+                    self.probes.hit("unmediated_fs_changes");
+                }
+            }
+            self.dir_print = h;
+        }
         if let Some(v) = self.deferred.take() {
             return Err(v);
         }
@@ -1396,6 +1445,9 @@ impl Prop for C19 {
         } else {
             160_000
         }
+    }
+    fn determinism_runs() -> u64 {
+        2000
     }
     fn rule() -> &'static str {
         "one evaluation = one simulated run: a seeded workload (history of the output path, 1..8 writer processes running the real atomic_write_file / gentle_overwrite / compile_clvm / Python-entry-point sequence, 0..3 readers) executed under a seeded schedule with injected faults and process deaths, invariants C19.1-C19.5 evaluated on the real directory at every scheduling step. Non-trivial = some writer created its temporary file with contents different from the initial ones and, before that writer's rename (or death), another actor performed a mediated file-system call or a fault/crash fired. Distinct = distinct hash of the whole normalised event log (actor, call, normalised paths, length, injected action, result) among non-trivial runs."
